@@ -56,7 +56,7 @@ func c06DeathSig(caseID, tail string) string { return "reorg-crash " + topRepoFr
 func c06Cases(tier string, seed int64) []string {
 	n := 24
 	if tier == "thorough" {
-		n = 2400
+		n = 1800
 	}
 	var l []string
 	for i := 0; i < n; i++ {
